@@ -209,7 +209,7 @@ func ruleC15Table(e *Env) {
 								continue
 							}
 							if wantErr {
-								if !strings.Contains(ret[1].String(), "*date.ErrInvalidFromOrTo") {
+								if !wrapsSentinel(ret[1], "*date.ErrInvalidFromOrTo") {
 									e.S.Bad(rule, site, construct, fmt.Sprintf("error %v does not wrap ErrInvalidFromOrTo", ret[1]), e.Pos(fft), construct)
 								} else {
 									e.S.Ok(rule, site, construct, "error wrapping ErrInvalidFromOrTo", e.Pos(fft))
